@@ -1,6 +1,7 @@
 """C06 — ordered subsets partition the data; every subset is used once per iteration."""
 import os
 import vlib
+import gen_gate
 
 PROP = "C06"
 
@@ -13,6 +14,7 @@ def main(tier, replay):
                 tier = l.split("tier=")[1].split()[0]
     chk = vlib.Check(PROP, tier, level="proof")
     audit = vlib.lean_gate(chk, PROP)
+    tie_t = gen_gate.gate(chk, kernels=["find_basic_view_segment_numbers", "num_related_view_segment_numbers", "subset_num_fixed"])
     stats = vlib.run_differential(chk, PROP, "c06_subsets", tier)
     vlib.standard_coverage(chk, stats,
         "real DataSymmetriesForBins_PET_CartesianGrid / find_basic_vs_nums_in_subset / subsets_are_approximately_balanced / "
@@ -20,6 +22,7 @@ def main(tier, replay):
         "all 8 requested symmetry-flag combinations, TOF and non-TOF, every (view,segment): basic/related/count; subsets n (all n<=6, divisors, sample; thorough: all n) "
         "x every subset; balanced flag; schedules. One line per operation, compared with the Lean model's answer; distinct = distinct (op) lines; "
         "the oracle counts (view,segment) multiplicities over all subsets on the implementation.")
+    chk.coverage["tie_T_translator"] = tie_t
     chk.assumptions += ["rand() is a parameter (scripted)", "view range is 0..V-1 (always the case for STIR projection data)",
                         "32-bit overflow not modelled"]
     if audit:
